@@ -38,6 +38,19 @@ PKG[C17-2]=store/prolly/tree; TESTS[C17-2]="./store/prolly/tree/"
 PKG[C26]=libraries/doltcore/sqle/kvexec; TESTS[C26]="./libraries/doltcore/sqle/kvexec/"
 PKG[C34-1]=libraries/doltcore/sqle/integration_test; TESTS[C34-1]="./libraries/doltcore/env/actions/"
 PKG[C34-2]=libraries/doltcore/sqle/enginetest; TESTS[C34-2]="./libraries/doltcore/env/actions/"
+PKG[C04]=store/nbs; TESTS[C04]="./store/nbs/"
+PKG[C21-1]=store/datas; TESTS[C21-1]="./store/datas/"
+PKG[C21-2]=libraries/doltcore/doltdb; TESTS[C21-2]="./libraries/doltcore/doltdb/"
+PKG[C22]=libraries/doltcore/sqle/enginetest; TESTS[C22]="./libraries/doltcore/doltdb/"
+PKG[C24]=libraries/doltcore/sqle/enginetest; TESTS[C24]="./libraries/doltcore/merge/"
+PKG[C28-1]=libraries/doltcore/sqle/dsess; TESTS[C28-1]="./libraries/doltcore/sqle/dsess/"
+PKG[C28-2]=libraries/doltcore/sqle/enginetest; TESTS[C28-2]="./libraries/doltcore/sqle/dsess/"
+PKG[C30]=store/prolly; TESTS[C30]="./store/prolly/..."
+PKG[C33]=libraries/doltcore/sqle/enginetest; TESTS[C33]="./libraries/doltcore/sqle/"
+PKG[C36-1]=libraries/doltcore/sqle/sqlfmt; TESTS[C36-1]="./libraries/doltcore/sqle/sqlfmt/"
+PKG[C36-2]=libraries/doltcore/table/untyped/sqlexport; TESTS[C36-2]="./libraries/doltcore/table/untyped/sqlexport/"
+PKG[C37]=libraries/doltcore/doltdb; TESTS[C37]="./libraries/doltcore/doltdb/"
+PKG[C43]=libraries/doltcore/sqle/enginetest; TESTS[C43]="./libraries/doltcore/sqle/dprocedures/"
 mode=$1; shift
 for s in "$@"; do
   p=${s%-*}
